@@ -4,6 +4,7 @@ and compared with the ONE result the specification prescribes (R: every state of
 validated by Trace_Ops).'''
 from fractions import Fraction
 
+import numpy as np
 import static_frame as sf
 
 from .. import project as P
@@ -65,6 +66,16 @@ def call(cs, f, s):
         return f.relabel_level_drop(**{'index' if cs['axis'] == 0 else 'columns': cs['n']})
     if op == 'f_rehierarch':
         return f.rehierarch(**{'index' if cs['axis'] == 0 else 'columns': list(cs['dm'])})
+    if op == 's_label_widths':
+        pairs = list(s.index.label_widths_at_depth(cs['n']))
+        out = np.empty(len(pairs), dtype=object)
+        out[:] = [tuple(p) for p in pairs]
+        return out
+    if op == 's_iter_label':
+        labs = list(s.index.iter_label(cs['ds'][0] if len(cs['ds']) == 1 else list(cs['ds'])))
+        out = np.empty(len(labs), dtype=object)
+        out[:] = labs
+        return out
     if op in ('s_relabel_flat', 'f_relabel_flat'):
         r = s.relabel_flat() if op == 's_relabel_flat' else f.relabel_flat(**{'index' if cs['axis'] == 0 else 'columns': True})
         ax = r.index if (op == 's_relabel_flat' or cs['axis'] == 0) else r.columns
@@ -92,8 +103,8 @@ def call(cs, f, s):
 OPS = ('s_reindex', 'f_reindex', 's_roll', 's_shift', 'f_roll', 'f_shift', 's_head', 'f_head', 's_duplicated', 's_drop_duplicated',
        'f_duplicated', 'f_drop_duplicated', 's_isin', 'f_isin', 'f_transpose', 's_clip', 'f_clip',
        's_searchsorted',
-       's_level_add', 's_level_drop', 's_rehierarch', 'f_level_add', 'f_level_drop', 'f_rehierarch', 's_relabel_flat', 'f_relabel_flat', 's_map', 'f_map')
-HIER_OPS = OPS[-10:-2]
+       's_level_add', 's_level_drop', 's_rehierarch', 'f_level_add', 'f_level_drop', 'f_rehierarch', 's_relabel_flat', 'f_relabel_flat', 's_label_widths', 's_iter_label', 's_map', 'f_map')
+HIER_OPS = OPS[-12:-2]
 
 
 def _target(rng, labels):
@@ -191,6 +202,11 @@ def gen_hier(rng, op):
         s = {'index': labs, 'vals': col['vals'], 'dt': col['dt'], 'name': rng.choice([['none'], ['s', 'nm']])}
         if op == 's_relabel_flat':
             return {'op': op, 's': s}, None
+        if op == 's_label_widths':
+            return {'op': op, 's': s, 'n': rng.randint(0, depth - 1)}, None
+        if op == 's_iter_label':
+            ds = rng.sample(range(depth), rng.randint(1, depth))
+            return {'op': op, 's': s, 'ds': ds}, None
         if op == 's_level_add':
             return {'op': op, 's': s, 'v': rng.choice([['s', 'X'], ['i', 0]])}, None
         if op == 's_level_drop':
